@@ -254,7 +254,8 @@ def run(ctx):
 					m = trxd.rand_rx(r, ver = 1, nope = True)
 				ml.append(m)
 			ctx.seen(hash(tuple(trxd.key(m) for m in ml)), nontrivial = n > 0)
-			check_file(ctx, r, i, ml, bd)
+			with common.case_watchdog(ctx, "read", {"messages": [trxd.brief(m) for m in ml[:6]], "count": len(ml)}, first = 60, second = 60):
+				check_file(ctx, r, i, ml, bd)
 			if i < 2:
 				ctx.sample("file", {"messages": [trxd.brief(m) for m in ml[:3]], "count": n})
 			if ctx.too_many() or ctx.time_left() < 0:
